@@ -162,9 +162,9 @@ macro_rules! c09_uvm0_build_usize {
         }
     };
 }
-c09_uvm0_build_usize!(c09_uvm0_build_usize_w5_n3, thorough, 40, 5, 3);
-c09_uvm0_build_usize!(c09_uvm0_build_usize_w58_n3, thorough, 60, 58, 3);
-c09_uvm0_build_usize!(c09_uvm0_build_usize_w64_n2, thorough, 60, 64, 2);
+c09_uvm0_build_usize!(c09_uvm0_build_usize_w5_n3, probe, 40, 5, 3);
+c09_uvm0_build_usize!(c09_uvm0_build_usize_w58_n3, probe, 60, 58, 3);
+c09_uvm0_build_usize!(c09_uvm0_build_usize_w64_n2, probe, 60, 64, 2);
 
 /// `build_from_i32` / `build_from_u32` over the whole element type (N values, any spread).
 fn uvm0_build_i32<const N: usize>(full_range: bool) {
@@ -198,7 +198,7 @@ fn uvm0_build_i32<const N: usize>(full_range: bool) {
 zv_harness! {
     name: c09_uvm0_build_i32_w31_n2,
     prop: "C09",
-    tier: thorough,
+    tier: probe,
     unwind: 40,
     stubs: [alloc::fmt::format => crate::common::stubs::fmt_format],
     targets: "UintVecMin0::build_from_i32",
@@ -209,7 +209,7 @@ zv_harness! {
 zv_harness! {
     name: c09_uvm0_build_i32_w32_n2,
     prop: "C09",
-    tier: thorough,
+    tier: probe,
     unwind: 40,
     stubs: [alloc::fmt::format => crate::common::stubs::fmt_format],
     targets: "UintVecMin0::build_from_i32 (max_val - min_val in i32)",
@@ -221,7 +221,7 @@ zv_harness! {
 zv_harness! {
     name: c09_uvm0_build_u32_w32_n3,
     prop: "C09",
-    tier: thorough,
+    tier: probe,
     unwind: 40,
     stubs: [alloc::fmt::format => crate::common::stubs::fmt_format],
     targets: "UintVecMin0::build_from_u32",
@@ -249,7 +249,7 @@ zv_harness! {
 zv_harness! {
     name: c09_uvm0_push_grow_w3_w9,
     prop: "C09",
-    tier: thorough,
+    tier: probe,
     unwind: 70,
     stubs: [alloc::fmt::format => crate::common::stubs::fmt_format],
     targets: "UintVecMin0::new_empty, push_back, push_back_slow_path (rebuild with larger width / more capacity), get, back",
@@ -325,10 +325,10 @@ macro_rules! c09_zipintvec_build {
         }
     };
 }
-c09_zipintvec_build!(c09_zipintvec_build_w3_n3, thorough, 40, 3, 3, false);
-c09_zipintvec_build!(c09_zipintvec_build_w3_n3_top, thorough, 40, 3, 3, true);
-c09_zipintvec_build!(c09_zipintvec_build_w0_n3, thorough, 40, 0, 3, false);
-c09_zipintvec_build!(c09_zipintvec_build_w40_n3, thorough, 60, 40, 3, false);
+c09_zipintvec_build!(c09_zipintvec_build_w3_n3, probe, 40, 3, 3, false);
+c09_zipintvec_build!(c09_zipintvec_build_w3_n3_top, probe, 40, 3, 3, true);
+c09_zipintvec_build!(c09_zipintvec_build_w0_n3, probe, 40, 0, 3, false);
+c09_zipintvec_build!(c09_zipintvec_build_w40_n3, probe, 60, 40, 3, false);
 
 /// `ZipIntVec::new(N, MIN, MAX)` with a concrete range (concrete width), symbolic values and index.
 fn zipintvec_setget<const N: usize>(min: usize, max: usize) {
@@ -378,7 +378,7 @@ c09_zipintvec_setget!(c09_zipintvec_setget_n4_top, quick, 40, 4, usize::MAX - 4,
 zv_harness! {
     name: c09_zipintvec_build_u32_n3,
     prop: "C09",
-    tier: thorough,
+    tier: probe,
     unwind: 40,
     stubs: [alloc::fmt::format => crate::common::stubs::fmt_format],
     targets: "ZipIntVec::build_from_u32",
@@ -447,22 +447,22 @@ c09_intvec_small!(c09_intvec_i8_n3, quick, 40, i8, 3);
 c09_intvec_small!(c09_intvec_u64_n3, quick, 40, u64, 3);
 c09_intvec_small!(c09_intvec_i64_n3, quick, 40, i64, 3);
 c09_intvec_small!(c09_intvec_i32_n1, quick, 40, i32, 1);
-c09_intvec_small!(c09_intvec_u8_n4, thorough, 40, u8, 4);
-c09_intvec_small!(c09_intvec_i8_n4, thorough, 40, i8, 4);
-c09_intvec_small!(c09_intvec_u64_n4, thorough, 70, u64, 4);
-c09_intvec_small!(c09_intvec_i64_n4, thorough, 70, i64, 4);
-c09_intvec_small!(c09_intvec_u16_n4, thorough, 40, u16, 4);
-c09_intvec_small!(c09_intvec_i16_n4, thorough, 40, i16, 4);
-c09_intvec_small!(c09_intvec_u32_n4, thorough, 40, u32, 4);
-c09_intvec_small!(c09_intvec_i32_n4, thorough, 40, i32, 4);
-c09_intvec_small!(c09_intvec_u32_n8, thorough, 60, u32, 8);
+c09_intvec_small!(c09_intvec_u8_n4, probe, 40, u8, 4);
+c09_intvec_small!(c09_intvec_i8_n4, probe, 40, i8, 4);
+c09_intvec_small!(c09_intvec_u64_n4, probe, 70, u64, 4);
+c09_intvec_small!(c09_intvec_i64_n4, probe, 70, i64, 4);
+c09_intvec_small!(c09_intvec_u16_n4, probe, 40, u16, 4);
+c09_intvec_small!(c09_intvec_i16_n4, probe, 40, i16, 4);
+c09_intvec_small!(c09_intvec_u32_n4, probe, 40, u32, 4);
+c09_intvec_small!(c09_intvec_i32_n4, probe, 40, i32, 4);
+c09_intvec_small!(c09_intvec_u32_n8, probe, 60, u32, 8);
 
 // ---- IntVec: directed shapes (pinned strategy) ---------------------------------------------
 
 zv_harness! {
     name: c09_intvec_u64_minmax_wide_n4,
     prop: "C09",
-    tier: thorough,
+    tier: probe,
     unwind: 70,
     stubs: [
         alloc::fmt::format => crate::common::stubs::fmt_format,
@@ -546,9 +546,9 @@ macro_rules! c09_intvec_sampled {
         }
     };
 }
-c09_intvec_sampled!(c09_intvec_u32_n32_sorted, thorough, 80, 32, true);
-c09_intvec_sampled!(c09_intvec_u32_n32_any, thorough, 80, 32, false);
-c09_intvec_sampled!(c09_intvec_u32_n34_sorted, thorough, 80, 34, true);
+c09_intvec_sampled!(c09_intvec_u32_n32_sorted, probe, 80, 32, true);
+c09_intvec_sampled!(c09_intvec_u32_n32_any, probe, 80, 32, false);
+c09_intvec_sampled!(c09_intvec_u32_n34_sorted, probe, 80, 34, true);
 
 /// from_slice_bulk_simd, 65..=2048 elements: analyze_fast_strategy + compress_*_bulk_simd.
 fn intvec_simd<const N: usize>() {
@@ -600,8 +600,8 @@ macro_rules! c09_intvec_simd {
         }
     };
 }
-c09_intvec_simd!(c09_intvec_simd_u8_n72, thorough, 150, 72);
-c09_intvec_simd!(c09_intvec_simd_u8_n73, thorough, 150, 73);
+c09_intvec_simd!(c09_intvec_simd_u8_n72, probe, 150, 72);
+c09_intvec_simd!(c09_intvec_simd_u8_n73, probe, 150, 73);
 
 // ------------------------------------------------------------------------------------------
 // Reads past the end are refused (the packed vectors document a panic)
@@ -713,10 +713,10 @@ macro_rules! c09_uintvector_build {
         }
     };
 }
-c09_uintvector_build!(c09_uintvector_build_n4_full, thorough, 40, 4, 4294967295, false);
-c09_uintvector_build!(c09_uintvector_build_n12_w2, thorough, 60, 12, 3, true);
-c09_uintvector_build!(c09_uintvector_build_n12_w8, thorough, 60, 12, 256, true);
-c09_uintvector_build!(c09_uintvector_build_n12_full, thorough, 60, 12, 4294967295, false);
+c09_uintvector_build!(c09_uintvector_build_n4_full, probe, 40, 4, 4294967295, false);
+c09_uintvector_build!(c09_uintvector_build_n12_w2, probe, 60, 12, 3, true);
+c09_uintvector_build!(c09_uintvector_build_n12_w8, probe, 60, 12, 256, true);
+c09_uintvector_build!(c09_uintvector_build_n12_full, probe, 60, 12, 4294967295, false);
 
 /// Twelve elements (bit packing needs more than 10), ten of them concrete (100..=109) and two symbolic
 /// in [100, 100+SPAN]: the value range max-min - which selects the packed width - is a solver choice.
@@ -756,9 +756,9 @@ macro_rules! c09_uintvector_mixed {
         }
     };
 }
-c09_uintvector_mixed!(c09_uintvector_mixed_r14_17, thorough, 20, 14, 17);
-c09_uintvector_mixed!(c09_uintvector_mixed_r30_33, thorough, 20, 30, 33);
-c09_uintvector_mixed!(c09_uintvector_mixed_r9_300, thorough, 20, 9, 300);
+c09_uintvector_mixed!(c09_uintvector_mixed_r14_17, probe, 20, 14, 17);
+c09_uintvector_mixed!(c09_uintvector_mixed_r30_33, probe, 20, 30, 33);
+c09_uintvector_mixed!(c09_uintvector_mixed_r9_300, probe, 20, 9, 300);
 
 zv_harness! {
     name: c09_uintvector_push_n5,
@@ -794,7 +794,7 @@ zv_harness! {
 zv_harness! {
     name: c09_uintvector_push_n65,
     prop: "C09",
-    tier: thorough,
+    tier: probe,
     unwind: 140,
     stubs: [alloc::fmt::format => crate::common::stubs::fmt_format],
     targets: "UintVector::push across the 64-element recompression (recompress_all, analyze_optimal_strategy, compress_*), get over compressed part + temp part",
@@ -906,11 +906,11 @@ macro_rules! c09_sorteduv {
         }
     };
 }
-c09_sorteduv!(c09_sorteduv_n3_b16_o16_s32_small, thorough, 12, 3, 4, 16, 32, true);
-c09_sorteduv!(c09_sorteduv_n3_b16_o16_s32_any, thorough, 12, 3, 4, 16, 32, false);
-c09_sorteduv!(c09_sorteduv_n3_b16_o20_s64_any, thorough, 12, 3, 4, 20, 64, false);
-c09_sorteduv!(c09_sorteduv_n17_b16_o16_s40_small, thorough, 20, 17, 4, 16, 40, true);
-c09_sorteduv!(c09_sorteduv_n17_b16_o16_s61_small, thorough, 20, 17, 4, 16, 61, true);
+c09_sorteduv!(c09_sorteduv_n3_b16_o16_s32_small, probe, 12, 3, 4, 16, 32, true);
+c09_sorteduv!(c09_sorteduv_n3_b16_o16_s32_any, probe, 12, 3, 4, 16, 32, false);
+c09_sorteduv!(c09_sorteduv_n3_b16_o20_s64_any, probe, 12, 3, 4, 20, 64, false);
+c09_sorteduv!(c09_sorteduv_n17_b16_o16_s40_small, probe, 20, 17, 4, 16, 40, true);
+c09_sorteduv!(c09_sorteduv_n17_b16_o16_s61_small, probe, 20, 17, 4, 16, 61, true);
 
 /// N copies of one symbolic value (the builder's sortedness test `value < last` is then decided
 /// syntactically, which keeps every length concrete for the solver).
@@ -967,9 +967,9 @@ macro_rules! c09_sorteduv_repeat {
         }
     };
 }
-c09_sorteduv_repeat!(c09_sorteduv_repeat_n1_s32, thorough, 12, 1, 6, 16, 32);
-c09_sorteduv_repeat!(c09_sorteduv_repeat_n3_s64, thorough, 12, 3, 4, 16, 64);
-c09_sorteduv_repeat!(c09_sorteduv_repeat_n3_s40, thorough, 12, 3, 7, 20, 40);
+c09_sorteduv_repeat!(c09_sorteduv_repeat_n1_s32, probe, 12, 1, 6, 16, 32);
+c09_sorteduv_repeat!(c09_sorteduv_repeat_n3_s64, probe, 12, 3, 4, 16, 64);
+c09_sorteduv_repeat!(c09_sorteduv_repeat_n3_s40, probe, 12, 3, 7, 20, 40);
 
 /// Stub for `std::io::_eprint`: diagnostics on `zipora_verify!` failure paths (which then abort).
 pub fn eprint_noop(_args: core::fmt::Arguments<'_>) {}
